@@ -2,6 +2,7 @@ package doublesign
 
 import (
 	"errors"
+	"math"
 	"time"
 )
 
@@ -41,6 +42,14 @@ func (m *maxWaitError) apply(wait time.Duration, waitErr error) {
 	}
 }
 
+// remaining returns threshold-since, capped at the largest representable duration
+func remaining(threshold, since time.Duration) time.Duration {
+	if since < 0 && threshold > math.MaxInt64+since {
+		return math.MaxInt64
+	}
+	return threshold - since
+}
+
 // SyncedToEmit should be called before emitting any events
 // It returns nil if node is allowed to emit events
 // Otherwise, node returns a minimum duration of how long node should wait before emitting
@@ -53,19 +62,19 @@ func SyncedToEmit(s SyncStatus, threshold time.Duration) (time.Duration, error) 
 	}
 	var max maxWaitError
 	if s.Since(s.ExternalSelfEventDetected) < threshold {
-		max.apply(threshold-s.Since(s.ExternalSelfEventDetected), ErrSelfEventsOngoing)
+		max.apply(remaining(threshold, s.Since(s.ExternalSelfEventDetected)), ErrSelfEventsOngoing)
 	}
 	if s.Since(s.ExternalSelfEventCreated) < threshold {
-		max.apply(threshold-s.Since(s.ExternalSelfEventCreated), ErrSelfEventsOngoing)
+		max.apply(remaining(threshold, s.Since(s.ExternalSelfEventCreated)), ErrSelfEventsOngoing)
 	}
 	if s.Since(s.BecameValidator) < threshold {
-		max.apply(threshold-s.Since(s.BecameValidator), ErrJustBecameValidator)
+		max.apply(remaining(threshold, s.Since(s.BecameValidator)), ErrJustBecameValidator)
 	}
 	if s.Since(s.LastConnected) < threshold {
-		max.apply(threshold-s.Since(s.LastConnected), ErrJustConnected)
+		max.apply(remaining(threshold, s.Since(s.LastConnected)), ErrJustConnected)
 	}
 	if s.Since(s.P2PSynced) < threshold {
-		max.apply(threshold-s.Since(s.P2PSynced), ErrJustP2PSynced)
+		max.apply(remaining(threshold, s.Since(s.P2PSynced)), ErrJustP2PSynced)
 	}
 
 	return max.wait, max.waitErr
